@@ -8,7 +8,7 @@ open Lean
 ```
 {"m":"mcpclient","connect":b,"ops":["init"|"list_tools"|"call_tool"|"list_resources"|"read_resource"|"list_prompts"|"get_prompt"…],
  "inits":[{"ok":"<protocolVersion>"} | {"raise":tag}…],     how the k-th initialize answer reads (then: ok, latest version)
- "calls":[{"ok":tag} | {"raise":tag}…]}                     how the k-th other helper call ends (then: ok)
+ "calls":[{"ok":tag} | {"raise":tag}…],"rejected":[op position…]}                     how the k-th other helper call ends (then: ok)
 -> {"results":[{"k":"initialized","v":…}|{"k":"cached"}|{"k":"value","tag":…}|{"k":"raised","tag":…}…],
     "trace":[{"req":op}|{"set":version}…],"initialized":b,"nInit":n,"nCall":n}
 ```
@@ -57,9 +57,11 @@ def handle (j : Json) : Except String Json := do
   let ops ← (← j.getObjValAs? (Array String) "ops").toList.mapM opOf
   let inits := (← j.getObjValAs? (Array Json) "inits").toList
   let calls := (← j.getObjValAs? (Array Json) "calls").toList
+  let rejected := ((j.getObjValAs? (Array Nat) "rejected").toOption.getD #[]).toList   -- positions of operations whose helper rejects its arguments
   let a : Answers Unit String String :=
     { inits := fun k => match inits[k]? with | some x => initOf x | none => .ok (latest, ()),
-      calls := fun k => match calls[k]? with | some x => callOf x | none => .ok "ok" }
+      calls := fun k => match calls[k]? with | some x => callOf x | none => .ok "ok",
+      rejects := fun k => if rejected.contains k then some "rejected" else none }
   let r := if (j.getObjValAs? Bool "connect").toOption.getD false then connect a ops else run a St.fresh ops
   return Json.mkObj [
     ("results", Json.arr (r.2.1.map resJson).toArray), ("trace", Json.arr (r.2.2.map evJson).toArray),
